@@ -56,6 +56,11 @@ class FactEngine(object):
             if x.get('kind') == 'ParmVarDecl':
                 decls.setdefault(x['id'], x)
         self.never_written = set(decls) - written
+        self._write_sites = write_sites
+        self._init_all = {i: [c for c in kids(d) if not c.get('kind', '').endswith('Attr')][-1]
+                          for i, d in decls.items() if i not in written and d.get('kind') == 'VarDecl' and
+                          [c for c in kids(d) if not c.get('kind', '').endswith('Attr')]}
+        self._decl_node = decls
         const_method = bool(re.search(r'\)\s*const\b', qtype(self.fn)))
 
         def written_after(decl_node, i):
@@ -211,11 +216,20 @@ class FactEngine(object):
             ks = [c for c in kids(x)]
             if ks:
                 out.append(self._truthy(ks[-1], truth))
+                call = self._call_behind(peel(ks[-1]))
+                if call is not None:
+                    out += self._helper_facts(call, truth)
             return [f for f in out if f]
         if k == 'BinaryOperator' and x.get('opcode') in ('<', '<=', '>', '>=', '==', '!='):
             a, b = kids(x)
             op = x.get('opcode') if truth else NEG[x.get('opcode')]
             out.append(canon(op, self.key(a), self.key(b)))
+            if op in ('==', '!='):
+                for (p_, q_) in ((peel(a), peel(b)), (peel(b), peel(a))):
+                    if q_ is not None and q_.get('kind') in ('CXXNullPtrLiteralExpr', 'GNUNullExpr') and p_ is not None:
+                        call = self._call_behind(p_)
+                        if call is not None:
+                            out += self._helper_facts(call, op == '!=')
             return out
         if k == 'CXXOperatorCallExpr':
             c = callee(x)
@@ -231,6 +245,9 @@ class FactEngine(object):
         if k == 'CallExpr':
             out += self._helper_facts(x, truth)
         if k == 'DeclRefExpr':
+            call = self._call_behind(x)
+            if call is not None:
+                out += self._helper_facts(call, truth)      # the result of a helper call, tested through a local
             # a named test: a write-once bool local whose initialiser is still valid here stands for that test
             i = (x.get('referencedDecl') or {}).get('id')
             init = getattr(self, '_named_tests', {}).get(i)
@@ -242,6 +259,65 @@ class FactEngine(object):
                         common &= set(fs)
                     out += list(common)
         return out
+
+    def _call_behind(self, x):
+        """The call whose value x is: the call itself, or the initialiser of the write-once local x names."""
+        if x is None:
+            return None
+        if x.get('kind') == 'CallExpr':
+            return x
+        if x.get('kind') == 'DeclRefExpr':
+            i = (x.get('referencedDecl') or {}).get('id')
+            init = getattr(self, '_ident_init', {}).get(i)
+            if init is not None and peel(init) is not None and peel(init).get('kind') == 'CallExpr':
+                return peel(init)
+            # a write-once local holding the result of a call whose arguments are changed later on: usable at a test
+            # that is reached from the declaration before any of them is written
+            init = getattr(self, '_init_all', {}).get(i)
+            cur = getattr(self, '_cur_node', None)
+            if init is not None and cur is not None and peel(init) is not None and peel(init).get('kind') == 'CallExpr':
+                if self._unwritten_between(self._decl_node[i], cur, peel(init)):
+                    return peel(init)
+        return None
+
+    def _unwritten_between(self, decl, node, call):
+        """No variable the call's arguments read is written on a path from the declaration to `node`."""
+        roots = set()
+        for a in call_args(call):
+            for y in walk(a):
+                if y.get('kind') == 'DeclRefExpr' and (y.get('referencedDecl') or {}).get('kind') in ('VarDecl', 'ParmVarDecl'):
+                    roots.add((y.get('referencedDecl') or {}).get('id'))
+        starts = self.cfg.nodes_for(decl)
+        if not starts:
+            return False
+        wnodes = set()
+        for r in roots:
+            for w in self._write_sites.get(r, ()):
+                for n in self.cfg.nodes_for(w):
+                    wnodes.add(n.id)
+        # nodes on some path decl -> node: reachable from decl and reaching node
+        fwd = set()
+        stack = [m for s_ in starts for (m, _) in s_.succs]
+        while stack:
+            n = stack.pop()
+            if n.id in fwd:
+                continue
+            fwd.add(n.id)
+            if n is node:
+                continue
+            stack.extend(m for (m, _) in n.succs)
+        if node.id not in fwd:
+            return False
+        bwd = set()
+        stack = [node]
+        while stack:
+            n = stack.pop()
+            if n.id in bwd:
+                continue
+            bwd.add(n.id)
+            stack.extend(p for (p, _) in n.preds if p.id in fwd)
+        between = (fwd & bwd) - {node.id}
+        return not (between & wnodes)
 
     def _helper_facts(self, call, truth, _depth=0):
         """Facts a call of a small internal predicate implies: what holds on every return of the helper that yields
@@ -259,14 +335,23 @@ class FactEngine(object):
         args = call_args(call)
         if len(ps) != len(args):
             return []
-        sel = [fs for (fs, v) in cases if v is truth]
-        if not sel or any(not isinstance(v, bool) for (_, v) in cases):
+        ren = [(pk, self.key(a)) for (pk, a) in zip(ps, args)]
+        if all(isinstance(v, bool) for (_, v) in cases):
+            sel = [fs for (fs, v) in cases if v is truth]
+        elif all(isinstance(v, str) for (_, v) in cases):
+            # a pointer result: "non-null" selects the returns of something other than the null literal
+            sel = [fs for (fs, v) in cases if (v != 'null') == truth]
+            vals = set(v for (fs, v) in cases if v != 'null')
+            if truth and len(vals) == 1:
+                ren.append((list(vals)[0], self.key(call)))       # what it hands back is the value of the call
+        else:
+            return []
+        if not sel:
             return []
         common = set(sel[0])
         for fs in sel[1:]:
             common &= set(fs)
         out = []
-        ren = [(pk, self.key(a)) for (pk, a) in zip(ps, args)]
         for (op, a, b) in common:
             for (pk, ak) in ren:
                 a = a.replace(pk, ak)
@@ -348,7 +433,7 @@ class FactEngine(object):
     def _truthy(self, x, truth, key=None, ty=None):
         key = key or self.key(x)
         ty = ty or dtype(x)
-        if ty.endswith('*') or ty.endswith('* const') or 'unique_ptr' in ty or ty == 'std::nullptr_t':
+        if ty.endswith('*') or ty.endswith('* const') or ty.endswith('*const') or 'unique_ptr' in ty or ty == 'std::nullptr_t':
             return canon('!=' if truth else '==', key, 'null')
         return canon('!=' if truth else '==', key, 'n:0')
 
@@ -390,7 +475,9 @@ class FactEngine(object):
 
         def edge(n, label, st):
             if n.kind == 'cond' and label in ('T', 'F') and n.info != 'range-for':
+                self._cur_node = n
                 fs = self.cond_facts(n.ast, label == 'T')
+                self._cur_node = None
                 # a fact that contradicts a must-fact makes the edge infeasible
                 return frozenset(st | set(fs))
             if n.kind == 'switch' and isinstance(label, tuple):
@@ -437,7 +524,9 @@ class FactEngine(object):
                 f2, e2 = fs, ever
                 new = None
                 if n.kind == 'cond' and lab in ('T', 'F') and n.info != 'range-for':
+                    self._cur_node = n
                     new = set(self.cond_facts(n.ast, lab == 'T'))
+                    self._cur_node = None
                 elif n.kind == 'switch' and isinstance(lab, tuple):
                     v = self.folder.fold(lab[1])
                     if v is not None:
